@@ -49,6 +49,11 @@ def gen_value(r, delim):
     alphabet = 'abc XYZ019#=_-./:;,()[]\\\'üλ'
     n = r.randint(0, 12)
     s = ''.join(r.choice(alphabet) for _ in range(n))
+    if n >= 3 and r.random() < 0.15:
+        # characters that are legal inside the quotes although some line-splitting routines treat them
+        # as line ends (vertical tab, form feed, FS/GS/RS, lone CR, NEL, LS, PS); never first or last
+        i = r.randrange(1, n - 1)
+        s = s[:i] + r.choice('\x0b\x0c\x1c\x1d\x1e\r\x85\u2028\u2029') + s[i + 1:]
     if delim == D2 and r.random() < 0.2 and n > 1:
         # a single quote character inside (not at the end, never doubled) is not the delimiter
         i = r.randrange(0, n - 1)
